@@ -29,7 +29,8 @@ VERIF = os.path.dirname(os.path.dirname(os.path.abspath(__file__)))
 class Query:
     def __init__(self, name, factory, K, kind="bmc", asserts=None, covers=None, layer=None,
                  hints=None, timeout=300, required=True, desc="", invariants=None, k_ind=1,
-                 cosim_cycles=0, outside="", mem_symbolic=None, tactic=None):
+                 cosim_cycles=0, outside="", mem_symbolic=None, tactic=None, split=True):
+        self.split = split
         self.name = name
         self.factory = factory          # () -> Harness
         self.K = K
@@ -495,6 +496,31 @@ def run_query(q, prop, findings):
 
 
 # ---------------------------------------------------------------- process pool
+
+def split_queries(queries):
+    """one process per assertion (and one for all cover twins) of every BMC query with split=True"""
+    import copy
+    out = []
+    for q in queries:
+        if q.kind != "bmc" or not getattr(q, "split", True):
+            out.append(q)
+            continue
+        h = q.factory()
+        asserts = list(h._viols) if q.asserts is None else list(q.asserts)
+        covers = list(h._covers) if q.covers is None else list(q.covers)
+        if len(asserts) + (1 if covers else 0) <= 1:
+            out.append(q)
+            continue
+        for a in asserts:
+            qa = copy.copy(q)
+            qa.asserts, qa.covers = [a], []
+            out.append(qa)
+        if covers:
+            qc = copy.copy(q)
+            qc.asserts, qc.covers = [], covers
+            out.append(qc)
+    return out
+
 
 def _worker(q, prop, findings, conn):
     import threading
